@@ -1117,8 +1117,9 @@ class Model:
                     lay["attested"] = self.layout_of("AttestedCredentialData::serialize", body, bm.group(1), "self", tail="Ok(())")
                 if tr == "" and st == "Response" and imp["module"] == "ctap1":
                     mt = f["matches"][0] if f.get("matches") else None
-                    if mt is None or mt["scrutinee"].strip() != "self" or body.count("match") != 1:
-                        raise Untranslatable("ctap1::Response::serialize", "expected a single `match self`")
+                    if mt is None or mt["scrutinee"].strip() != "self" or body.count("match") != 1 or \
+                            not body.startswith("{matchself{") or not body.endswith("}}"):
+                        raise Untranslatable("ctap1::Response::serialize", "expected the body to be a single `match self`")
                     bm = re.search(r"\(&self,(\w+):&mut", sig)
                     if not bm:
                         raise Untranslatable("ctap1::Response::serialize", "buffer parameter not found")
